@@ -317,7 +317,10 @@ impl Default for GenCfg {
 }
 
 fn gen_lit(rng: &mut Rng, comment: bool) -> String {
-    let n = if rng.chance(1, 25) {
+    let n = if rng.chance(1, 80) {
+        // very long literal: expected-token rendering, fixed-offset slicing
+        rng.range(18, 40)
+    } else if rng.chance(1, 25) {
         rng.range(5, 12)
     } else if rng.chance(3, 4) {
         1
@@ -378,6 +381,14 @@ fn gen_ex(rng: &mut Rng, rule: usize, nrules: usize, depth: usize, cfg: &GenCfg,
     }
     let k = rng.below(100);
     let sub = |rng: &mut Rng| Box::new(gen_ex(rng, rule, nrules, depth - 1, cfg, comment));
+    if rng.chance(1, 30) {
+        // `(!("x" | "y") ~ ANY)*` — inside atomic rules the optimizer turns this into its
+        // skip-until fast path
+        let n = rng.range(1, 2);
+        let stops: Vec<Ex> = (0..n).map(|_| Ex::Str(gen_lit(rng, false))).collect();
+        let stop = if stops.len() == 1 { stops[0].clone() } else { Ex::Choice(stops) };
+        return Ex::Star(Box::new(Ex::Seq(vec![Ex::NegPred(Box::new(stop)), Ex::Builtin("ANY")])));
+    }
     if k < 28 {
         let n = rng.range(2, 3);
         Ex::Seq((0..n).map(|_| *sub(rng)).collect())
@@ -467,11 +478,11 @@ pub fn gen_grammar(rng: &mut Rng, cfg: &GenCfg) -> Grammar {
             let guard = Ex::Str(["a", "b", "("][rng.below(3)].to_string());
             body = Ex::Choice(vec![Ex::Seq(vec![guard, Ex::Ref(i), body.clone()]), body]);
         }
-        let modifier = match rng.below(10) {
+        let modifier = match rng.below(12) {
             0 => "_",
-            1 => "@",
-            2 => "$",
-            3 => "!",
+            1 | 2 | 3 => "@",
+            4 => "$",
+            5 => "!",
             _ => "",
         };
         rules.push(RuleDef {
